@@ -29,6 +29,8 @@ SHAPES = [
     # a selector inside a real directory that is named like the WAP prefix; every field written out, with port 0 and a large port
     b"hBare URL\tURL:", b"hBare slash URL\t/URL:",
     b"0In the wap directory\t/wap/guide.txt", b"iFully spelled info\t/\t(NULL)\t0", b"1Big port\t/x\tremote.example\t65535", b"1Port one\t/x\tremote.example\t1",
+    # this host, another port: the third field left empty, the fourth given
+    b"1Other instance\t/archive\t\t7070",
 ]
 PLACEMENTS = ["root", "d1", "d2", "file", "rootfile", "zip", "dirnamed"]
 
